@@ -8,10 +8,12 @@ pub mod c06;
 pub mod c15;
 pub mod c19;
 pub mod c20;
+pub mod hist_props;
+pub mod history;
 pub mod c04_positer;
 
 use crate::run::Property;
 
 pub fn all() -> Vec<&'static dyn Property> {
-    vec![&c01::C01, &c02::C02, &c03::C03, &c04::C04, &c06::C06, &c15::C15, &c19::C19, &c20::C20]
+    vec![&c01::C01, &c02::C02, &c03::C03, &c04::C04, &c06::C06, &c15::C15, &c19::C19, &c20::C20, &hist_props::C05, &hist_props::C11, &hist_props::C12, &hist_props::C13, &hist_props::C14, &hist_props::C18]
 }
